@@ -70,7 +70,7 @@ class DensityMatrix(State[complex, torch.Tensor]):
         # NOTE: use this in the callbacks
         """Normalize the density matrix state"""
         matrix_trace = torch.trace(self.data)
-        if not torch.allclose(matrix_trace, torch.tensor(1.0, dtype=torch.float64)):
+        if not torch.allclose(matrix_trace, torch.tensor(1.0, dtype=matrix_trace.dtype)):
             self.data = self.data / matrix_trace
 
     def overlap(self, other: State) -> torch.Tensor:
